@@ -19,10 +19,10 @@ _u = dict(file="C15u.c", name="h15u", function="h15u", repo_srcs=[x for x in _sr
           what="chunk-end step of the reader (comp_end_dchunk) from the state reached when the last stored byte of a zstd chunk was read: failure and an empty output buffer on checksum mismatch; exact decoding on acceptance",
           bounds="stored size 1..3 (all byte values), declared size 0..4, any digest", functions=["comp_end_dchunk", "zstd end_dchunk", "comp_add_to_dc", "validate_current_chunk", "validate_chunk", "hash_finalize"])
 _qsrcs = _srcs
-_qrb = dict(ERR, **{"src/lib/hash/hash.c": ["get_digest_string", "validate_current_chunk"]})
+_qrb = dict(ERR, **{"src/lib/hash/hash.c": ["get_digest_string", "validate_current_chunk", "validate_file"]})
 _qm = ["compint_spec.c", "log_err.c", "files.c", "hash_nondet.c", "fmt.c", "digeststr.c", "keyeq.c", "zstd_stub.c"]
 def Q(name, comp, nch, shape, fsz, w, clr, what, extra=()):
-    d = ["-DNCH=%d" % nch, "-DFCAP=8", "-DDOFF=2", "-DZS_MAX=8", "-DV_UTHASH_MODEL", "-DCOMP=%s" % comp, "-DFSZ=%d" % fsz, "-DCLR=%d" % clr, "-DH_h15q"]
+    d = ["-DNCH=%d" % nch, "-DFCAP=10", "-DDOFF=2", "-DZS_MAX=8", "-DZS_SIMPLE_DICT", "-DV_UTHASH_MODEL", "-DCOMP=%s" % comp, "-DFSZ=%d" % fsz, "-DCLR=%d" % clr, "-DH_h15q"]
     for k, (cl, ul, v) in enumerate(shape, 1):
         d += ["-DCL%d=%d" % (k, cl), "-DUL%d=%d" % (k, ul), "-DV%d=%d" % (k, v)]
     d += ["-DW%d=%d" % (k + 1, x) for k, x in enumerate(w)]
@@ -43,6 +43,9 @@ _QI = [
     ("two-bad2", Z, 3, [(2, 1, 1), (2, 1, -1)], 6, (1, 1, 1, 0), 0, "second of two chunks fails its checksum"),
     ("two-bad1", Z, 3, [(2, 1, -1), (2, 1, 1)], 6, (1, 1, 1, 0), 1, "first of two chunks fails its checksum, caller clears the error"),
     ("badmarker", Z, 2, [(3, 2, 1)], 5, (1, 1, 1, 0), 0, "stored bytes match the checksum but do not decode (wrong frame marker)", ("-DM1=0",)),
+    ("dict-good", Z, 3, [(2, 1, 1), (2, 1, 1)], 8, (1, 1, 1, 0), 0, "zstd with a dictionary chunk: sequential read decodes both data chunks with it", ("-DCL0=2", "-DUL0=1", "-DM1=0x26", "-DM2=0x26")),
+    ("dict-rejected", Z, 3, [(2, 1, 1), (2, 1, 1)], 8, (1, 1, 0, 0), 0, "dictionary chunk that the codec rejects: clean failure and clean free", ("-DCL0=2", "-DUL0=1", "-DM1=0x26", "-DM2=0x26", "-DZS_DDICT_FAIL")),
+    ("nocomp-dict", N, 3, [(1, 1, 1), (2, 2, 1)], 6, (1, 1, 1, 1), 0, "no compression with a dictionary chunk", ("-DNOC15", "-DCL0=1", "-DUL0=1")),
     ("nocomp-good", N, 2, [(2, 2, 1)], 4, (1, 1, 1, 0), 0, "uncompressed chunk, intact", ("-DNOC15",)),
     ("nocomp-bad", N, 2, [(2, 2, -1)], 4, (1, 1, 1, 0), 0, "uncompressed chunk failing its checksum: read to end and close must not succeed", ("-DNOC15",)),
 ]
